@@ -95,6 +95,12 @@ impl SharedHistory {
         // Update the snapshot. The refresh time and object information may
         // have changed.
         history.current = Some(snapshot.into());
+        #[cfg(routinator_verif)]
+        crate::verif::trace("Install", &[
+            ("serial", u32::from(history.serial()) as i64),
+            ("ndeltas", history.deltas.len() as i64),
+            ("changed", res as i64),
+        ]);
         res
     }
 
@@ -136,6 +142,10 @@ impl SharedHistory {
                 Some(now)
             }
         };
+        #[cfg(routinator_verif)]
+        crate::verif::trace("MarkDone", &[
+            ("created", locked.created.map(|t| t.timestamp()).unwrap_or(0)),
+        ]);
     }
 }
 
